@@ -32,7 +32,7 @@ Step ==
   /\ LET ln == Trace[l + 1]
          t == ToGs(ln.M, ln.deckM)
      IN /\ gs' = t
-        /\ viol' = IF Cardinality(viol) >= MaxViol THEN viol ELSE viol \cup {<<l + 1, nm>> : nm \in (IF "C07" \in Props THEN Bad(ln) ELSE {})}
+        /\ viol' = viol \cup {<<l + 1, nm>> : nm \in {x \in (IF "C07" \in Props THEN Bad(ln) ELSE {}) : Cardinality({w \in viol : w[2] = x}) < MaxViol}}
         /\ drift' = IF ln.kind = "reset" \/ StepOK(gs, AsLine(ln), t) \/ Cardinality(drift) >= MaxViol THEN drift ELSE drift \cup {l + 1}
         /\ cnt' = Bump(cnt, IF ln.kind = "reset" THEN {"runs", "runs." \o ln.mode}
                             ELSE {"calls"} \cup (IF ln.hasB THEN {"backendCalls"} ELSE {}) \cup (IF ln.errM # "" THEN {"refusedCalls"} ELSE {})
